@@ -138,6 +138,27 @@ let exec (toks : string list) =
         let (s', r) = sstep !sentinel !st (SLoad (nat_of_int h, c, cols, rows)) in st := s'; api_reset h;
         (match r with ROk _ -> l2_set h (l2_load_c !l2_fixed cols rows) op | _ -> Hashtbl.remove l2t h);
         print_result op r
+      | "READ" ->
+        (* READ h <file> <LP|MPS> <MIN|MAX> nc nr cols rows: the library reads the file; the model is told what the file says -
+           per column its raw list in the order of raw->cols[i] (duplicates of one (row, column) pair not merged), rows as in LOAD.
+           Reference problem: QSload_prob-style from the merged columns (merge_col of the extracted model);
+           L2: lib_load_raw (Store.RawLoad: buildMatrix + ILLlp_add_logicals) *)
+        let h = handle (tk ()) in let _fn = tk () in let _ft = tk () in
+        (match !cur with
+         | [] -> Hashtbl.remove l2t h; api_reset h; print_endline "R READ SKIP nomodel"
+         | _ ->
+           let c = objsense_code (tk ()) in
+           let nc = tk_int () in let nr = tk_int () in
+           if nc < 0 || nr < 0 then raise Bad_args;
+           let raw = tk_list nc (fun () ->
+             let nm = name_opt (tk ()) in let o = tk_q () in let l = tk_q () in let u = tk_q () in let e = tk_ent () in
+             ((((o, l), u), nm), e)) in
+           let rows = tk_list nr (fun () -> let nm = name_opt (tk ()) in let s = code_char (tk ()) in let rhs = tk_q () in ((nm, s), rhs)) in
+           let rcols = List.map (fun (_, e) -> nat_ents e) raw in
+           let cols = List.map2 (fun (a, _) rc -> (a, List.map (fun (i, v) -> (z_of_int (int_of_nat i), v)) (merge_col_c rc))) raw rcols in
+           let (s', r) = sstep !sentinel !st (SLoad (nat_of_int h, c, cols, rows)) in st := s'; api_reset h;
+           (match r with ROk _ -> l2_set h (lib_load_raw_c rcols (List.map (fun ((_, sn), _) -> coef_of_sense sn) rows)) op | _ -> Hashtbl.remove l2t h);
+           print_result op r)
       | "FREE" -> let h = handle (tk ()) in let (s', r) = sstep !sentinel !st (SFree (nat_of_int h)) in st := s'; api_reset h; Hashtbl.remove l2t h; print_result op r
       | "COPY" ->
         let h = handle (tk ()) in let h2 = handle (tk ()) in
